@@ -89,11 +89,17 @@ def cells_unit(res):
     return res
 
 
+def _inspect_unit():
+    from .c11 import inspect_selection_unit
+    return inspect_selection_unit
+
+
 def units(tier):
     return [
         Unit("C13/frontend/warning-texts-and-marks", warnings_unit, "P", [(FE, "Frontend._user_warnings_header"), (FE, "Frontend._user_warnings_footer"),
                                                                         (FE, "Frontend._get_flag_symbols")], decisive=False),
         Unit("C13/frontend/_get_lcd_cp_ports", cells_unit, "P", [(FE, "Frontend._get_lcd_cp_ports"), (FE, "Frontend._get_node_by_lineno")], decisive=False),
+        Unit("C13/inspect/warning-flags-and-report-wiring", _inspect_unit(), "P", [(OS, "inspect")], decisive=False),
         bounded_unit("C13/report-vs-dict", "c13_report", [(FE, "Frontend.combined_view"), (FE, "Frontend.full_analysis_dict"), (FE, "Frontend.loopcarried_dependencies"),
                      (FE, "Frontend._get_port_pressure"), (FE, "Frontend._get_lcd_cp_ports"), (OS, "inspect")], extra_args=["C13"], timeout=2400, decisive=True),
     ]
